@@ -22,7 +22,7 @@ PROPERTY = "C15"
 SESSIONS = {"quick": 120, "thorough": 3000}
 BUDGET_S = {"quick": 80, "thorough": 1500}
 CAP_S = {"quick": 240, "thorough": 480}
-KINDS = ("result", "optimized_name", "divisions", "npartitions", "len")
+KINDS = ("result", "parts", "parts", "optimized_name", "divisions", "npartitions", "len")
 RULE = ("one session = a pool of 8-20 related queries (one generated recipe, biased to sort/set_index/repartition-by-size/merge/groupby "
         "variants) x a drawn history of 8-30 steps (observe / optimize+keep|discard / drop / gc / compute_with_fault) under cache "
         "capacities 1..3 or 10; every observation is compared with the same query run alone in a pristine process; distinct = distinct "
@@ -104,7 +104,7 @@ def _get(live, recipe, r):
 
 
 def _observe_here(coll, kind, det, ses, fuse):
-    want = {"result": ("result",), "optimized_name": ("optimized_name",), "divisions": ("divisions",), "npartitions": ("npartitions",),
+    want = {"result": ("result",), "parts": ("parts",), "optimized_name": ("optimized_name",), "divisions": ("divisions",), "npartitions": ("npartitions",),
             "len": ("len",)}[kind]
     d = pristine.describe(coll, det, ses, fuse=fuse, want=want)
     return d.get(want[0])
@@ -177,7 +177,7 @@ def _execute(spec, ses):
                     sub = W.prune(recipe, [r])
                     resp = pristine.call_eval(spec["hash_seed"], {"kind": "recipe", "recipe": sub, "targets": [r], "use_knobs": True,
                                                                   "fuse": st.get("fuse", True),
-                                                                  "want": [{"result": "result", "optimized_name": "optimized_name", "divisions": "divisions",
+                                                                  "want": [{"result": "result", "parts": "parts", "optimized_name": "optimized_name", "divisions": "divisions",
                                                                             "npartitions": "npartitions", "len": "len"}[kind]]})
                     if "descs" not in resp:
                         memo[key] = {"error": "refusal", "sig": "build"}
